@@ -94,7 +94,7 @@ pub const QUICK_PAGES: [u8; 40] = [
 
 pub const CFGS: [(u8, u8, u8); 6] = [(0x00, 0, 0), (0x03, 2, 3), (0x13, 4, 3), (0x03, 0, 1), (0x01, 1, 0), (0x13, 0x52, 4)];
 
-const SIZES: [usize; 14] = [4, 8, 12, 16, 20, 40, 100, 156, 160, 320, 636, 640, 644, 1000];
+const SIZES: [usize; 20] = [4, 8, 12, 16, 20, 40, 100, 156, 160, 320, 636, 640, 644, 1000, 1020, 1024, 1028, 2048, 4096, 70224];
 
 /// a write between two batches: pending / already copied source byte, unrelated RAM, bank switch, or a restart
 fn gen_between(rng: &mut Rng, page: &mut u8, prog: &mut usize, evs: &mut Vec<Ev>) {
@@ -142,7 +142,8 @@ pub fn gen_scenario(rng: &mut Rng, page0: u8, style: u64) -> Vec<Ev> {
   let mut page = page0;
   let mut prog = 0usize;
   evs.push(Ev::W(0xff46, page));
-  let total = 640 + *rng.pick(&[0usize, 4, 40, 360]);
+  // totals beyond 255 machine cycles matter: a block may run for thousands of cycles before the devices are caught up
+  let total = 640 + *rng.pick(&[0usize, 4, 40, 360, 384, 388, 1408, 3456]);
   let mut t = 0usize;
   let fixed = *rng.pick(&[8usize, 12, 16, 28, 156, 320, 636]);
   let mut restarts = 0;
